@@ -1,4 +1,5 @@
 import MdsVerif.Model.Lis
+import MdsVerif.Proofs.LisDefs
 import MdsVerif.Proofs.Patience
 /-!
 # `Model.Lis.lisCore` refines the patience model
@@ -212,7 +213,7 @@ theorem lisStep_fast {strict : Bool} {cmp : α → α → Int} {vs : List α} {s
     (h1 : s.tails.getLast? = some b) (h2 : vs[i]? = some v) (h3 : vs[b]? = some vb)
     (h4 : if strict then cmp v vb > 0 else cmp v vb ≥ 0) (h5 : i < s.prev.length) :
     lisStep strict cmp vs s i = some { tails := s.tails ++ [i], prev := s.prev.set i (b : Int) } := by
-  simp only [lisStep, h1, h2, h3, Option.bind_eq_bind, Option.bind_some, if_pos h4, setAt, if_pos h5,
+  simp only [lisStep_def, h1, h2, h3, Option.bind_eq_bind, Option.bind_some, if_pos h4, setAt, if_pos h5,
     Option.pure_def]
 
 theorem lisStep_slow {strict : Bool} {cmp : α → α → Int} {vs : List α} {s : St} {i b r : Nat} {v vb : α}
@@ -225,7 +226,7 @@ theorem lisStep_slow {strict : Bool} {cmp : α → α → Int} {vs : List α} {s
     (h8 : r < s.tails.length) :
     lisStep strict cmp vs s i = some { tails := s.tails.set r i, prev := s.prev.set i p } := by
   cases strict <;> simp only [Bool.false_eq_true, if_false, if_true] at h4 h6 <;>
-  · simp only [lisStep, h1, h2, h3, Option.bind_eq_bind, Option.bind_some, if_neg h4, setAt, if_pos h5,
+  · simp only [lisStep_def, h1, h2, h3, Option.bind_eq_bind, Option.bind_some, if_neg h4, setAt, if_pos h5,
       Option.pure_def, Bool.false_eq_true, if_false, if_true, h6]
     by_cases hr0 : r = 0
     · subst hr0
